@@ -171,6 +171,7 @@ impl MultiTrainDataGenerator {
 //@rule R21
 //@rule R6_any
 //@rule R6_sum
+    #[verifier::loop_isolation(false)]
     pub fn new(
         generators: Vec<TrainDataGenerator>,
         strategy: GenerationStrategy,
